@@ -3,6 +3,7 @@ package main
 import (
 	"context"
 	"fmt"
+	"github.com/lidofinance/dc4bc/fsm/types/requests"
 	"strings"
 	"time"
 
@@ -17,7 +18,7 @@ func init() {
 func roundProj(snapshot, round string) string {
 	rt := fmt.Sprintf("r%d ", tok.Tok(round))
 	out := ""
-	if i := strings.Index(snapshot, "[" + rt); i >= 0 || strings.Contains(snapshot, ", "+rt) {
+	if i := strings.Index(snapshot, "["+rt); i >= 0 || strings.Contains(snapshot, ", "+rt) {
 		if i < 0 {
 			i = strings.Index(snapshot, ", "+rt) + 1
 		}
@@ -127,6 +128,20 @@ func scenarioC08(c *Ctx) {
 		}
 		cases = append(cases, HistCase{Kind: "duplicates-junk", User: me, Items: dj, Check: check("duplicates, junk and mutated copies")})
 	}
+	// (3a) a stranger's opening proposal under round A's identifier plus white space (another round as
+	// far as the board is concerned; opening proposals are not signature-checked): it belongs to
+	// another sub-log and must not touch what the node holds for round A
+	for _, suffix := range []string{" ", "\t", "\n"} {
+		var evil []*requests.SignatureProposalParticipantsEntry
+		for i, u := range w.Users {
+			evil = append(evil, &requests.SignatureProposalParticipantsEntry{Username: u, PubKey: userKey("stranger").Pub, DkgPubKey: []byte(fmt.Sprintf("dkgpubkey--%d", i))})
+		}
+		k := 3 + c.Rng.Intn(len(hA)-4)
+		items := append([]Item{}, hA[:k]...)
+		items = append(items, w.Msg(rA+suffix, "event_sig_proposal_init", requests.SignatureProposalParticipantsListRequest{Participants: evil, SigningThreshold: 2, CreatedAt: T(5)}, "stranger", "", "stranger", NOWMARK, "proposal-under-a-look-alike-identifier"))
+		items = append(items, hA[k:]...)
+		cases = append(cases, HistCase{Kind: "look-alike-identifier", User: me, Items: items, Check: check("an opening proposal under this round's identifier plus white space")})
+	}
 	// (3b) a broadcast of round B whose entries NAME round A (the field is sender-controlled): it
 	// belongs to round B's sub-log and must not touch what the node holds for round A
 	{
@@ -201,3 +216,13 @@ func scenarioC08(c *Ctx) {
 	}
 	c.Notes["histories"] = len(cases)
 }
+
+// c08sparse: what a board entry says must not depend on which other entries were read in the same
+// call - two nodes whose polls were split differently would otherwise see different sub-logs
+func scenarioC08Sparse(c *Ctx) {
+	c16SparseLines(c, func(kind, what string, rep map[string]interface{}) {
+		c.Fail(Failure{Property: "C08", Kind: kind, Signature: map[string]interface{}{"kind": kind}, What: what, Replay: rep})
+	})
+}
+
+func init() { scenarios["c08sparse"] = scenarioC08Sparse }
